@@ -306,13 +306,25 @@ public:
 		return *this;
 	}
 
-	File& operator>>(String& x) // do what? read size then data? read until 0?
+	/**
+	Reads a string that is preceded by its length as an int32 (as written by `file << int(s.length()) << s`;
+	note that `<<` alone does not write the length). A negative length or a length beyond the end of the file
+	gives the bytes that are there.
+	*/
+	File& operator>>(String& x)
 	{
-		int n;
+		int n = 0;
 		*this >> n;
-		x.resize(n);
-		x[n] = '\0';
-		read(&x[0], n);
+		x.clear();
+		char buf[1024];
+		while (n > 0)
+		{
+			int m = read(buf, n < (int)sizeof(buf) ? n : (int)sizeof(buf));
+			if (m <= 0)
+				break;
+			x.append(buf, m);
+			n -= m;
+		}
 		return *this;
 	}
 
